@@ -770,10 +770,13 @@ fn w_ord(o: &mut String, x: Ordering) {
 fn cmp_t<T: Form + Ord>(a: &Sx, b: &Sx, o: &mut String) -> Option<()> {
     let a = T::parse(a)?;
     let b = T::parse(b)?;
-    match guard(|| (a.cmp(&b), a == b, b.cmp(&a), a.partial_cmp(&b))) {
+    match guard(|| (a.cmp(&b), a == b, b.cmp(&a), a.partial_cmp(&b), [a < b, a <= b, a > b, a >= b, a != b])) {
         None => o.push_str("panic"),
-        Some((ab, eq, ba, pc)) => {
-            if pc != Some(ab) {
+        Some((ab, eq, ba, pc, rel)) => {
+            // the comparison operators and `!=` are methods of their own (`lt`, `le`, `gt`, `ge`, `ne` can be overridden): each must
+            // say what `cmp` / `==` say
+            let want = [ab == Ordering::Less, ab != Ordering::Greater, ab == Ordering::Greater, ab != Ordering::Less, !eq];
+            if pc != Some(ab) || rel != want {
                 o.push_str("bad-partial");
             } else {
                 w_ord(o, ab);
